@@ -98,4 +98,24 @@ CLAIMS = {
                  "sequence conversions and the exact start/end/parse structure of trim_u8 with the parser's own acceptance predicate.",
         "note": TRUST + "std position/rposition/map/collect semantics trusted.",
     },
+    "C02": {
+        "technique": "eq/hash feed normal forms over the resolved impl set (crate-local impls and std &A==&B forwarding inlined) + guard rows for length tests + Borrow rows",
+        "level": "Decides for all 17 PartialEq impls that they reduce to bitvec == on the two contents (or, for k-mers, a length-guarded storage comparison with the packed content), "
+                 "that all three Hash impls feed the same [content bits, symbol count] sequence (k-mer: storage[0,K*BITS), K), the SeqSlice==&str guards and per-element operations, "
+                 "and that Borrow<SeqSlice> returns content(self).",
+        "note": TRUST + "bitvec's alignment-independent == and per-bit Hash are model rows; hasher behaviour is out of scope.",
+    },
+    "C09": {
+        "technique": "bit-extent rows for rotate/push + canonical-form typestate over every Kmer construction + reachability of 2-bit-only primitives + guard row for the complement mask",
+        "level": "Decides the extents and amounts of rotation and push, that every packed k-mer takes an extent inside the content (I-canon, with enumerated exceptions), that "
+                 "1<<m is guarded by m<64, that the 2-bit block reversal is reached only for 2-bit codecs (and REV_2BIT is that reversal for all 256 bytes), and the generic "
+                 "reversal's shape on storage[0,K*BITS).",
+        "note": TRUST + "bitvec rotate/store semantics trusted; u64/u128 complement/rev_blocks_2 are unreachable from public impls (dormant).",
+    },
+    "C10": {
+        "technique": "comparator provenance (what each Ord/PartialOrd impl compares, in which traversal order) over the resolved impl set",
+        "level": "Decides that Kmer's order is the numeric order of storage (hence colex given C04/C09), Dna codes are 0..3 in A<C<G<T, and that Seq's cmp compares the reversed "
+                 "traversal of both operands by the same adaptor chain (most significant end first), partial_cmp = Some(cmp).",
+        "note": TRUST + "Iterator::cmp and integer comparison are std; colex = numeric order uses C04 packing and C09 canonical form as hypotheses.",
+    },
 }
